@@ -36,6 +36,17 @@ func (ex *Exec) execBlock(fr *Frame, b *ssa.BasicBlock, pc Term, st State) (Stat
 			v := ex.val(fr, in.Val)
 			t := in.Val.Type()
 			st = ex.store(st, pc, a, t, v)
+			if _, isChan := t.Underlying().(*types.Chan); isChan {
+				if fa, ok := in.Addr.(*ssa.FieldAddr); ok {
+					// the field now holds this channel: its per-field closed-ness record starts from
+					// what is known about the channel value itself
+					stT := fa.X.Type().Underlying().(*types.Pointer).Elem()
+					key := fmt.Sprintf("G|closed|%s|%d", typeKey(stT), fa.Field)
+					gen := ex.get(st, "G|closed", arraySort(SRef, SBool))
+					pf := ex.get(st, key, arraySort(SRef, SBool))
+					st = st.with(key, ex.vc.def("closedf", sto(pf, v, sel(gen, v, SBool))))
+				}
+			}
 			ex.siteStore(fr, in, pc, st, a, v)
 		case *ssa.UnOp:
 			st = ex.doUnOp(fr, in, pc, st)
@@ -129,6 +140,9 @@ func (ex *Exec) execBlock(fr *Frame, b *ssa.BasicBlock, pc Term, st State) (Stat
 		case *ssa.MakeChan:
 			ex.nLoc++
 			fr.vals[in] = refLoc(ex.nLoc)
+			// a new channel is open
+			hc := ex.get(st, "G|closed", arraySort(SRef, SBool))
+			st = st.with("G|closed", ex.vc.def("closed", sto(hc, refLoc(ex.nLoc), tFalse)))
 		case *ssa.Lookup:
 			fr.vals[in] = ex.doLookup(fr, in, pc, st)
 		case *ssa.MapUpdate:
